@@ -888,7 +888,7 @@ fn run_prep(sc: &mut dyn ScopeOps, ctx: &mut Ctx<'_>) {
     ctx.pc += 1;
     let args = ctx.steps[i]["args"].clone();
     let (esz, eal, rev, c0) = (u(&args, "esz"), u(&args, "eal"), b(&args, "rev"), u(&args, "cap"));
-    let via = if ctx.variant == "dyn" { "dyn" } else { "typed" };
+    let via = if ctx.variant == "dyn" { "dyn" } else if b(&args, "str") { "string" } else { "typed" };
     let before = sc.snapshot();
     let ma = sc.min_align();
     let echunks = Value::Array(before.chunks.iter().map(|c| json!([c.start, c.pos])).collect());
@@ -934,7 +934,7 @@ fn run_prep(sc: &mut dyn ScopeOps, ctx: &mut Ctx<'_>) {
                 "prep_push" => {
                     ctx.pc += 1;
                     let pb = coll.as_mut().unwrap();
-                    let tag = 1 + ((pushed.len() * 7 + i * 13) % 250) as u8;
+                    let tag = 1 + ((pushed.len() * 7 + i * 13) % (if via == "string" { 100 } else { 250 })) as u8;
                     region().fail_next.set(b(&jargs, "fail"));
                     let r = catch_unwind(AssertUnwindSafe(|| pb.push(tag)));
                     region().fail_next.set(false);
